@@ -11,3 +11,9 @@ pub use error::*;
 pub use discovery_adapter::GrpcDiscoveryAdapter;
 pub use status_adapter::GrpcStatusAdapter;
 pub use strategy_adapter::GrpcStrategyAdapter;
+
+/// Verification hook (feature `verif-hooks`, off by default): the generated protobuf messages and their conversions.
+#[cfg(feature = "verif-hooks")]
+pub mod verif {
+    pub use crate::proto::*;
+}
